@@ -113,6 +113,9 @@ func (c *Ctx) convxRun() []*opsVerdict {
 			for _, t2 := range types11 {
 				v.runs++
 				where := fmt.Sprintf("%s.Convert(%s x, %s)", manager, t1, t2)
+				if t2 == "Long" || t2 == "String" {
+					noteSample("CONV.model/"+manager, where)
+				}
 				outs := h.runConvert(t1, t2)
 				identity := (t2 == t1 && t2 != "Null") || t2 == "Object"
 				safeOK := identity || t2 == "Null"
